@@ -175,7 +175,7 @@ func (P *Prog) buildFuncAliases() {
 	funcAliases = map[*ssa.Global]*ssa.Function{}
 	stores := map[*ssa.Global][]*ssa.Store{}
 	for _, fn := range P.RepoFns {
-		Instrs(fn, func(in ssa.Instruction) {
+		InstrsRaw(fn, func(in ssa.Instruction) {
 			if st, ok := in.(*ssa.Store); ok {
 				if g, ok := st.Addr.(*ssa.Global); ok {
 					if _, isSig := g.Type().(*types.Pointer).Elem().Underlying().(*types.Signature); isSig {
@@ -262,7 +262,7 @@ func (tb *termBuilder) term(v ssa.Value, at ssa.Instruction) *Term {
 	case *ssa.Parameter:
 		// a parameter of a helper introduced by a refactoring (absent from the pinned tree) that has exactly one
 		// call site is the argument passed there: statements moved into such a helper keep their terms
-		if site := tb.P.uniqueSiteOfNewHelper(x.Parent()); site != nil && tb.depth < maxTermDepth-4 {
+		if site := helperSite(x.Parent()); site != nil && tb.depth < maxTermDepth-4 {
 			for i, p := range x.Parent().Params {
 				if p == x && i < len(site.Call.Args) {
 					inner := &termBuilder{P: tb.P, stack: map[ssa.Value]bool{}, depth: tb.depth + 1}
@@ -591,7 +591,7 @@ func closureWrites(fn *ssa.Function, i int, depth int) bool {
 	}
 	fv := fn.FreeVars[i]
 	writes := false
-	Instrs(fn, func(in ssa.Instruction) {
+	InstrsRaw(fn, func(in ssa.Instruction) {
 		switch x := in.(type) {
 		case *ssa.Store:
 			if root, _ := addrPath(x.Addr); root == ssa.Value(fv) {
@@ -885,6 +885,22 @@ func (tb *termBuilder) inlineNewHelper(c *ssa.Call, idx int, tuple bool) *Term {
 		return nil
 	}
 	rets := Returns(callee)
+	if len(rets) > 1 && tuple {
+		// (value, err) helper: under the caller's success test the value is the one of the only success return
+		if ei, _ := errIndex(callee.Signature); ei >= 0 && ei != idx {
+			var succ []*ssa.Return
+			for _, rt := range rets {
+				if c, _ := tb.P.retClass(rt, ei); c == "nil" {
+					succ = append(succ, rt)
+				} else if c != "nonnil" {
+					succ = append(succ, nil)
+				}
+			}
+			if len(succ) == 1 && succ[0] != nil {
+				rets = succ
+			}
+		}
+	}
 	if len(rets) != 1 || idx >= len(rets[0].Results) {
 		return nil
 	}
